@@ -250,7 +250,7 @@ FRAME = {
     "with_suffix": {"raw_path", "raw_query_string", "raw_fragment"}, "truediv": {"raw_path", "raw_query_string", "raw_fragment"},
     "joinpath": {"raw_path", "raw_query_string", "raw_fragment"}, "parent": {"raw_path", "raw_query_string", "raw_fragment"},
     "origin": {"raw_user", "raw_password", "raw_path", "raw_query_string", "raw_fragment"},
-    "relative": {"scheme", "raw_user", "raw_password", "raw_host", "explicit_port", "host_subcomponent"},
+    "relative": {"scheme", "raw_user", "raw_password", "raw_host", "explicit_port", "host_subcomponent", "raw_path"},   # raw_path: '/' under an authority reads as '' without one
 }
 COMPONENTS = ["scheme", "raw_user", "raw_password", "raw_host", "explicit_port", "raw_path", "raw_query_string", "raw_fragment", "host_subcomponent"]
 
@@ -269,7 +269,7 @@ def c11_oracle(full, io, b):
         name = f[3]
         allowed = FRAME.get(name, set())
         # a base whose own components cannot be read is outside the quantifier
-        if any((v.get(src, c) or "!").startswith("!") for c in COMPONENTS):
+        if any((v.get(src, c) is None or v.get(src, c).startswith("!")) for c in COMPONENTS):
             continue
         for c in COMPONENTS:
             if c in allowed:
@@ -303,6 +303,19 @@ def c11_oracle(full, io, b):
                 exp = v.get(src, comp) if flag == "T" else ""
                 if v.get(h, comp) is not None and v.get(h, comp) != exp:
                     out.append(fail(v, h, comp, f"{name}(keep={flag}) left {comp} = {pretty_out(v.get(h, comp))}, expected {pretty_out(exp)}", "keep-flags"))
+        if name == "origin":
+            for comp, exp in (("raw_user", "~"), ("raw_password", "~"), ("raw_query_string", ""), ("raw_fragment", "")):
+                if v.get(h, comp) not in (None, exp):
+                    out.append(fail(v, h, comp, f"origin() kept {comp} = {pretty_out(v.get(h, comp))}", "origin-keeps"))
+            if v.get(h, "raw_path") not in (None, "", enc("/")):
+                out.append(fail(v, h, "raw_path", f"origin() kept the path {pretty_out(v.get(h, 'raw_path'))}", "origin-keeps"))
+        if name == "relative":
+            for comp in ("raw_path", "raw_query_string", "raw_fragment"):
+                a, r = v.get(src, comp), v.get(h, comp)
+                if comp == "raw_path":
+                    continue
+                if a is not None and r is not None and a != r:
+                    out.append(fail(v, h, comp, f"relative() changed {comp}: {pretty_out(a)} -> {pretty_out(r)}", "relative-keeps"))
         if name in ("truediv", "joinpath", "parent"):
             for comp in ("raw_query_string", "raw_fragment"):
                 if v.get(h, comp) not in (None, ""):
@@ -332,6 +345,16 @@ def c11_streams(rng, tier, budget):
             m = rand_mod(rng, st, h, [nm])
             st.obs_all(m, C11_OBS)
     yield "matrix", st
+    st3 = Stream()
+    for hst in hosts:
+        for us in users:
+            for pt in ports:
+                for tl in tails:
+                    h = st3.new("http://" + us + hst + pt + tl)
+                    st3.obs_all(h, C11_OBS)
+                    for nm in ("origin", "relative", "parent"):
+                        st3.obs_all(st3.mod(h, nm), C11_OBS)
+    yield "origin-relative-parent", st3
     yield "random", general_stream(rng, int((100 if tier == "quick" else 1500) * budget), C11_OBS, enc_frac=0.0, with_join=False, with_build=False)
 
 
@@ -532,6 +555,13 @@ def c13_oracle(full, io, b):
                                     also=[v.n_of(src, "raw_name")]))
                 elif hp[:-1] != sp[:-1] and len(sp) > 1:
                     out.append(fail(v, h, "raw_parts", f"with_suffix changed other segments: {sp!r} -> {hp!r}", "suffix-other-segments"))
+                else:
+                    import urllib.parse as _up
+                    arg = dec(f[4])
+                    tail = dec(hname)[len(stem):]
+                    if no_surr(arg) and _up.unquote_to_bytes(tail) != arg.encode("utf-8"):
+                        out.append(fail(v, h, "raw_name", f"with_suffix({arg!r}) on name {sname!r} (suffix {ssuf!r}) gives {dec(hname)!r}: what follows the stem is not the new suffix",
+                                        "suffix-replace", also=[v.n_of(src, "raw_name")]))
         if f[3] == "with_name":
             t = dec(f[4])
             nm = v.get(h, "name")
@@ -684,7 +714,9 @@ def c14_oracle(full, io, b):
         norm = lambda t: t[:2] + (("/" if (t[1] and not t[2]) else t[2]),) + t[3:]  # noqa
         if norm(got) != norm(exp):
             cls = "join-rfc"
-            if not base[1] and (not base[2].startswith("/")):
+            if not base[1] and (not base[2].startswith("/")) and norm(exp)[:2] + norm(exp)[3:] == norm(got)[:2] + norm(got)[3:] \
+                    and norm(exp)[2] == "/" + norm(got)[2]:
+                # the listed deviation: RFC 5.2.4 applied to a ROOTLESS merged path climbs to "/", yarl's relative variant does not
                 cls = "join-rootless-or-empty-base-without-authority"
             elif base[1] and base[2] and not base[2].startswith("/"):
                 cls = "join-rootless-path-under-authority"
